@@ -217,3 +217,34 @@ def _fixed_index(fn, slice_stmts, call):
                 if isinstance(n.value, ast.Name) and any(n.value.id in _assigned_names(s2) and any(c is call for c in ast.walk(s2)) for s2 in slice_stmts):
                     return n
     return None
+
+
+# ---------------------------------------------------------------------------------------------------------------------
+# OWN.resolver-input (C12, C06): the constructors leave the base graph as the caller wrote it
+# ---------------------------------------------------------------------------------------------------------------------
+
+def own_resolver_input(repo, tier="quick"):
+    """resolve() selects the fragment of a base-graph node by the names the caller's graph carries (`atomname` if present,
+    `fragname` otherwise).  A constructor that writes into that graph before resolve() reads it changes which fragments are
+    taken for graphs that carry both names - the output of an earlier resolution handed to from_graph - while every freshly
+    parsed base graph behaves as before.  The three constructors therefore have to be read-only on the base graph."""
+    from .own import effects
+    E = effects(repo)
+    oid = "OWN.resolver-input"
+    obs = []
+    sites = [("resolve:MoleculeResolver.__init__", 1), ("resolve:MoleculeResolver.from_graph", None)]
+    for fq, pos in sites:
+        fi = repo.function(fq)
+        params = [p for p in fi.positional_params if p not in ("self", "cls")]
+        graphs = [p for p in params if "graph" in p or "molecule" in p]
+        need(graphs, "anchor vanished: %s has no base-graph parameter" % fq, fi)
+        for p in graphs:
+            items = E.effects_on(fi, ("param", p))
+            if items:
+                for d, o in items[:3]:
+                    obs.append(ob_fail(oid, fi, construct="base graph `%s` written at distance %d via %s" % (p, d, o.split(" ", 1)[1] if " " in o else o), instance=fq.split(".")[-1] + ":" + p,
+                                       reason="a constructor modifies the base graph before resolve() reads the names that select the fragments: %s" % o))
+            else:
+                obs.append(ob_ok(oid, fi, construct="base graph `%s` is read-only in %s and its callees" % (p, fq.split(":")[1]), instance=fq.split(".")[-1] + ":" + p,
+                                 reason="the names on the caller's graph reach resolve() unchanged"))
+    return obs
